@@ -35,6 +35,12 @@ class ExportRun(object):
                 continue
             exp, exp_out, m = model.expected_outputs(c)
             outs = pipeline.collect_outputs(c, r)
+            if c.get('tolerant'):
+                # argument values a library may accept or refuse (outside what a file can express): only the outputs are judged
+                vs, docs = pipeline.judge_wellformed_modelfree(prop, c, outs)
+                self.violations += vs if prop == 'C02' else []
+                self.per_case.append(dict(case=c, res=r, exp=exp, exp_out=exp_out, model=m, outs=outs, docs=docs))
+                continue
             self.violations += pipeline.log_exceptions(prop, c, r, exp)
             vs, docs = pipeline.judge_wellformed(prop, c, outs, exp_out) if prop == 'C02' else (None, None)
             if docs is None:
